@@ -164,6 +164,138 @@ def avx512_variant(ctx):
     ctx.traces += n_c if not bad else 0
 
 
+SYN_SCALARS = [("char", "c_char"), ("signed char", "c_byte"), ("unsigned char", "c_ubyte"), ("short", "c_short"),
+               ("unsigned short", "c_ushort"), ("int", "c_int"), ("unsigned int", "c_uint"), ("long", "c_long"),
+               ("unsigned long", "c_ulong"), ("long long", "c_longlong"), ("float", "c_float"), ("double", "c_double"),
+               ("long double", "c_longdouble"), ("_Bool", "c_bool")]
+
+
+def synthetic_layouts(ctx):
+    """Edge-of-domain correspondence of the two layout MODELS, independent of rebound's structs: degenerate records (empty,
+    one member, zero-length arrays, tail padding, arrays of records, nested empty records, long double, unions and aligned
+    members on the C side) plus seeded random records.  Coq SysV model == gcc, Coq ctypes model == ctypes."""
+    import ctypes
+    rng = ctx.rng
+    recs = []          # (name, union, [(member, type)])  type: ("s", idx) | ("p",) | ("f",) | ("a", n, t) | ("r", recname) ; aligned via ("al", n, t)
+    sc = lambda cname: ("s", [c for c, _ in SYN_SCALARS].index(cname))
+    recs.append(("E0", False, []))
+    recs.append(("S1", False, [("a", sc("char"))]))
+    recs.append(("S2", False, [("a", sc("char")), ("b", sc("double"))]))
+    recs.append(("S3", False, [("a", sc("double")), ("b", sc("char"))]))
+    recs.append(("S4", False, [("a", sc("char")), ("b", sc("short")), ("c", sc("char")), ("d", sc("int")), ("e", sc("char")), ("f", sc("long"))]))
+    recs.append(("S5", False, [("n", sc("int")), ("tail", ("a", 0, sc("double")))]))
+    recs.append(("S6", False, [("v", ("a", 3, ("r", "S3"))), ("z", sc("char"))]))
+    recs.append(("S7", False, [("a", sc("char")), ("e", ("r", "E0")), ("b", sc("int")), ("e2", ("a", 2, ("r", "E0")))]))
+    recs.append(("S8", False, [("a", sc("char")), ("ld", sc("long double")), ("b", sc("char"))]))
+    recs.append(("S9", False, [("a", sc("_Bool")), ("b", ("a", 1024, sc("char"))), ("p", ("p",)), ("f", ("f",)), ("c", ("a", 1, sc("short")))]))
+    recs.append(("S10", False, [("only", ("a", 0, sc("char")))]))
+    recs.append(("S11", False, [("big", ("a", 100000, ("r", "S4"))), ("z", sc("char"))]))
+    for k in range(ctx.scale(16, 200)):
+        ms = []
+        for j in range(rng.choice([0, 1, 1, 2, 3, 4, 5, 8])):
+            u = rng.random()
+            if u < 0.55: t = ("s", rng.randrange(len(SYN_SCALARS)))
+            elif u < 0.65: t = ("p",) if rng.random() < 0.5 else ("f",)
+            elif u < 0.8: t = ("a", rng.choice([0, 1, 2, 3, 7]), ("s", rng.randrange(len(SYN_SCALARS))))
+            else:
+                r_ = rng.choice(recs)[0]
+                t = ("r", r_) if rng.random() < 0.6 else ("a", rng.choice([0, 1, 3]), ("r", r_))
+            ms.append(("m%d" % j, t))
+        recs.append(("R%d" % k, False, ms))
+    py_n = len(recs)
+    # C-only corners: unions, aligned members
+    recs.append(("U0", True, []))
+    recs.append(("U1", True, [("a", sc("char")), ("b", sc("double")), ("c", ("a", 3, sc("int")))]))
+    recs.append(("U2", True, [("a", ("r", "S3")), ("b", ("a", 17, sc("char")))]))
+    recs.append(("A1", False, [("a", sc("char")), ("b", ("al", 64, sc("double"))), ("c", sc("char"))]))
+    recs.append(("A2", False, [("a", ("al", 1, sc("double"))), ("b", ("al", 16, sc("char"))), ("u", ("r", "U1"))]))
+
+    def cq(t):
+        if t[0] == "s": return 'CPrim "%s"' % SYN_SCALARS[t[1]][0]
+        if t[0] == "p": return "CPtr CVoid"
+        if t[0] == "f": return "CPtr (CFun CVoid [] false)"
+        if t[0] == "a": return "CArr %d (%s)" % (t[1], cq(t[2]))
+        if t[0] == "r": return 'CStruct "%s"' % t[1]
+        if t[0] == "al": return cq(t[2])
+    def pq(t):
+        if t[0] == "s": return 'PPrim "%s"' % SYN_SCALARS[t[1]][1]
+        if t[0] == "p": return 'PPrim "c_void_p"'
+        if t[0] == "f": return "PFun PNone []"
+        if t[0] == "a": return "PArr %d (%s)" % (t[1], pq(t[2]))
+        if t[0] == "r": return 'PStruct "%s"' % t[1]
+    def cdecl(name, t, isu):
+        if t[0] == "s": return "%s %s" % (SYN_SCALARS[t[1]][0], name)
+        if t[0] == "p": return "void* %s" % name
+        if t[0] == "f": return "void (*%s)(void)" % name
+        if t[0] == "a": return cdecl("%s[%d]" % (name, t[1]), t[2], isu)
+        if t[0] == "r": return "%s %s %s" % ("union" if isu[t[1]] else "struct", t[1], name)
+        if t[0] == "al": return cdecl(name, t[2], isu) + " __attribute__((aligned(%d)))" % t[1]
+    isu = {n: u for n, u, _ in recs}
+    body = HDR + "Definition syn_c : list cstruct := [\n" + ";\n".join(
+        ' {| cs_name := "%s"; cs_union := %s; cs_header := "syn"; cs_members := [%s] |}' % (
+            n, "true" if u else "false",
+            "; ".join('{| cm_name := "%s"; cm_type := %s; cm_aligned := %d |}' % (m, cq(t), t[1] if t[0] == "al" else 0) for m, t in ms))
+        for n, u, ms in recs) + "].\n"
+    body += "Definition syn_py : list pyclass := [\n" + ";\n".join(
+        ' {| pc_name := "%s"; pc_module := "syn"; pc_fields := [%s] |}' % (n, "; ".join('("%s", %s)' % (m, pq(t)) for m, t in ms))
+        for n, u, ms in recs[:py_n]) + "].\n"
+    body += "Eval vm_compute in (match c_layouts syn_c with Some l => layout_lines l | None => [] end).\n"
+    body += "Eval vm_compute in (match py_layouts syn_py with Some l => layout_lines l | None => [] end).\n"
+    ok, out = vlib.coq_eval("c18_synthetic", body, 300)
+    vals = None
+    if ok:
+        try: vals = eval_blocks(out)
+        except ValueError: vals = None
+    if not vals or len(vals) != 2:
+        ctx.obligation("correspondence:C18 synthetic records evaluate in the model", False, out[-1500:]); return
+    # gcc
+    d = os.path.join(vlib.BUILD, "c18"); src = os.path.join(d, "syn_%d.c" % os.getpid()); exe = src[:-2]
+    L = ["#include <stdio.h>", "#include <stddef.h>"]
+    for n, u, ms in recs:
+        L.append("%s %s { %s };" % ("union" if u else "struct", n, " ".join(cdecl(m, t, isu) + ";" for m, t in ms)))
+    L.append("int main(void){")
+    for n, u, ms in recs:
+        sp = ("union " if u else "struct ") + n
+        for m, t in ms:
+            L.append('  printf("%s %s %%zu %%zu\\n", offsetof(%s, %s), sizeof(((%s*)0)->%s));' % (n, m, sp, m, sp, m))
+        L.append('  printf("%s <sizeof> %%zu %%zu\\n", sizeof(%s), (size_t)__alignof__(%s));' % (n, sp, sp))
+    L.append("  return 0; }")
+    open(src, "w").write("\n".join(L) + "\n")
+    r = subprocess.run(["gcc", "-std=gnu99", "-w", src, "-o", exe], capture_output=True, text=True)
+    r2 = subprocess.run([exe], capture_output=True, text=True) if r.returncode == 0 else None
+    for f in (src, exe):
+        try: os.remove(f)
+        except OSError: pass
+    if r2 is None or r2.returncode != 0:
+        ctx.obligation("correspondence:C18 synthetic records compile with gcc", False, r.stderr[-1200:]); return
+    gcc = {(a, b): [int(c), int(e)] for a, b, c, e in (l.split(" ") for l in r2.stdout.splitlines())}
+    coqc_ = {(a, b): [c, e] for a, b, c, e in vals[0]}
+    bad = [(k, "gcc", gcc.get(k), "coq", coqc_.get(k)) for k in sorted(set(gcc) | set(coqc_)) if gcc.get(k) != coqc_.get(k)]
+    ctx.obligation("correspondence:C18 edge/random records: Coq SysV layout == gcc (%d records incl. empty, zero-length arrays, unions, aligned; %d items)" % (len(recs), len(gcc)),
+                   not bad, "mismatches: %s" % bad[:8])
+    # ctypes
+    cls = {}
+    def ct(t):
+        if t[0] == "s": return getattr(ctypes, SYN_SCALARS[t[1]][1])
+        if t[0] == "p": return ctypes.c_void_p
+        if t[0] == "f": return ctypes.CFUNCTYPE(None)
+        if t[0] == "a": return ct(t[2]) * t[1]
+        if t[0] == "r": return cls[t[1]]
+    got = {}
+    for n, u, ms in recs[:py_n]:
+        cls[n] = type(n, (ctypes.Structure,), {"_fields_": [(m, ct(t)) for m, t in ms]})
+        for m, t in ms:
+            dsc = getattr(cls[n], m); got[(n, m)] = [dsc.offset, dsc.size]
+        got[(n, "<sizeof>")] = [ctypes.sizeof(cls[n]), ctypes.alignment(cls[n])]
+    coqp = {(a, b): [c, e] for a, b, c, e in vals[1]}
+    bad2 = [(k, "ctypes", got.get(k), "coq", coqp.get(k)) for k in sorted(set(got) | set(coqp)) if got.get(k) != coqp.get(k)]
+    ctx.obligation("correspondence:C18 edge/random records: Coq ctypes layout == ctypes (%d classes, %d items)" % (py_n, len(got)),
+                   not bad2, "mismatches: %s" % bad2[:8])
+    ctx.traces += (len(gcc) if not bad else 0) + (len(got) if not bad2 else 0)
+    for n, u, ms in recs:
+        ctx.case(key=("synthetic", n, len(ms)), sample={"synthetic_record": n, "union": u, "members": [m for m, _ in ms]} if n in ("S7", "A2") else None)
+
+
 def run(ctx):
     libdir = ctx.lib()
     ok1 = ctx.regen("translate_structs.py")
@@ -240,6 +372,7 @@ def run(ctx):
     ctx.traces += n_c if not bad else 0
     if ctx.thorough:
         avx512_variant(ctx)
+    synthetic_layouts(ctx)
 
     # ---- probe on the library
     kinds = {}; memstruct = {}
